@@ -105,6 +105,7 @@ class _Members:
         self.alias: dict[str, str] = {}  # property that only reads (and writes) one field -> that field
         self.getter: dict[str, ast.expr] = {}  # read-only property -> the expression it returns
         self.static: set[str] = set()
+        self.propmethods: set[str] = set()  # read-only properties with several statements: methods called at every read
         self.ok = True
         is_dc = any(_is_dataclass_deco(d) for d in cls.decorator_list)
         props: dict = {}
@@ -156,6 +157,13 @@ class _Members:
             self.ok = False
         for pn, (g, s_) in props.items():
             gb = _strip_doc(g.body) if g is not None else []
+            if g is not None and s_ is None and len(gb) > 1 and len(g.args.args) == 1 and isinstance(gb[-1], ast.Return) and gb[-1].value is not None and not any(isinstance(n, (ast.Yield, ast.YieldFrom, ast.Await)) for n in ast.walk(g)):
+                # a read-only property that computes its value in several statements: a method, called where it is read
+                m_ = copy.deepcopy(g)
+                m_.decorator_list = []
+                self.methods[pn] = m_
+                self.propmethods.add(pn)
+                continue
             if g is None or len(gb) != 1 or not isinstance(gb[0], ast.Return) or gb[0].value is None or len(g.args.args) != 1:
                 self.ok = False
                 continue
@@ -221,6 +229,8 @@ class _SelfRewrite(ast.NodeTransformer):
                 return ast.copy_location(copy.deepcopy(self.owner_fields[attr_]), node)
             new = f"{self.attr}__{attr_}" if attr_ in self.mem.methods else f"{self.attr}_{attr_}"
             out = ast.Attribute(value=ast.copy_location(ast.Name(id=self.owner_self, ctx=ast.Load()), node.value), attr=new, ctx=node.ctx)
+            if attr_ in self.mem.propmethods and isinstance(node.ctx, ast.Load):
+                return ast.copy_location(ast.Call(func=ast.copy_location(out, node), args=[], keywords=[]), node)
             return ast.copy_location(out, node)
         return self.generic_visit(node)
 
@@ -493,7 +503,10 @@ class _Access(ast.NodeTransformer):
             return ast.copy_location(sub_.visit(copy.deepcopy(self.mem.getter[node.attr])), node)
         if isinstance(v, ast.Attribute) and v.attr == self.attr and (a_ in self.mem.fields or a_ in self.mem.methods):
             new = f"{self.attr}__{a_}" if a_ in self.mem.methods else f"{self.attr}_{a_}"
-            return ast.copy_location(ast.Attribute(value=v.value, attr=new, ctx=node.ctx), node)
+            out_ = ast.copy_location(ast.Attribute(value=v.value, attr=new, ctx=node.ctx), node)
+            if a_ in self.mem.propmethods and isinstance(node.ctx, ast.Load):
+                return ast.copy_location(ast.Call(func=out_, args=[], keywords=[]), node)
+            return out_
         return node
 
 
@@ -527,7 +540,10 @@ class _LocalRewrite(ast.NodeTransformer):
             if attr_ in self.direct and isinstance(node.ctx, ast.Load):
                 return ast.copy_location(copy.deepcopy(self.direct[attr_]), node)
             new = f"{self.var}__{attr_}" if attr_ in self.mem.methods else f"{self.var}_{attr_}"
-            return ast.copy_location(ast.Name(id=new, ctx=node.ctx), node)
+            nm_ = ast.copy_location(ast.Name(id=new, ctx=node.ctx), node)
+            if attr_ in self.mem.propmethods and isinstance(node.ctx, ast.Load):
+                return ast.copy_location(ast.Call(func=nm_, args=[], keywords=[]), node)
+            return nm_
         return self.generic_visit(node)
 
     def visit_Name(self, node: ast.Name):
@@ -549,7 +565,10 @@ class _VarAccess(ast.NodeTransformer):
         a_ = self.mem.alias.get(node.attr, node.attr)
         if isinstance(node.value, ast.Name) and node.value.id == self.var and (a_ in self.mem.fields or a_ in self.mem.methods):
             new = f"{self.var}__{a_}" if a_ in self.mem.methods else f"{self.var}_{a_}"
-            return ast.copy_location(ast.Name(id=new, ctx=node.ctx), node)
+            nm_ = ast.copy_location(ast.Name(id=new, ctx=node.ctx), node)
+            if a_ in self.mem.propmethods and isinstance(node.ctx, ast.Load):
+                return ast.copy_location(ast.Call(func=nm_, args=[], keywords=[]), node)
+            return nm_
         return node
 
 
